@@ -1,5 +1,6 @@
 """C16 — Interaction constructors validate and classify exactly."""
-LEAN_TARGETS = ["QmcProps.C16", "drv_c16"]
+from checks import pure_fns
+LEAN_TARGETS = ["QmcProps.C16", "drv_c16", "QmcProofs.PureFnsAgree"]
 BINS = ["c16"]
 
 THEOREMS = [
@@ -34,6 +35,7 @@ RULE = ("every matrix length 0..70 x variable-list length 0..4 x 4 constructor v
 
 
 def main(ck):
+    pure_fns.run(ck)   # source->Lean translation of pure functions, re-proved equal to the hand model
     if ck.lake_build(LEAN_TARGETS):
         ck.audit("QmcProps.C16", ["Qmc.C16." + t for t in THEOREMS])
     if ck.cargo_build(BINS):
